@@ -152,6 +152,8 @@ def c06_cases(tier, seed):
         more = gens.g_ns(3, with_attr=False)
         cs += rnd.sample(more, min(len(more), 8000))
     cs += gens.g_cst(seed, 600 if q else 6000, flags="nc", renderings=1)
+    cs += gens.g_cst(seed + 5, 300 if q else 3000, flags="nc", renderings=2, hoist=True)
+    cs += gens.g_ns_attr(flags="nc", sample=6000 if q else None, seed=seed)
     # URIs supplied through references / entities
     d = "<!DOCTYPE r [<!ENTITY u 'urn:x'>]><r xmlns:p='&u;' xmlns='&#117;rn:y'><p:a/><b/></r>"
     cs.append(Case(d, "c", True, meta={"gen": "ns-uri-entity", "expect_content": [
@@ -216,6 +218,21 @@ def c07_cases(tier, seed):
                    meta={"gen": "first-wins", "expect_content": ["Q 1 - x72", "A 1 0 - x61 " + spec.hexs("ONE"), "X 2 " + spec.hexs("ONE")]}))
     cs.append(Case("<!DOCTYPE r [<!ENTITY % x 'PE'><!ENTITY x 'GE'>]><r>&x;</r>", "nc", True,
                    meta={"gen": "pe-not-ge", "expect_content": ["Q 1 - x72", "X 2 " + spec.hexs("GE")]}))
+    # several top-level references in ONE text run / ONE attribute value, each within the documented budget of
+    # 255 nested references, together beyond it: the budget is per top-level reference, so this equals the inline text
+    for n, k in ((128, 2), (200, 2), (255, 2), (100, 3), (10, 30), (3, 100)):
+        dtd = "<!DOCTYPE r [<!ENTITY b 'x'><!ENTITY a '" + "&b;" * n + "'>]>"
+        one = "x" * n
+        cs.append(Case(dtd + "<r>" + "-".join(["&a;"] * k) + "</r>", "nc", True,
+                       meta={"gen": "budget-per-reference-text", "n": n, "k": k,
+                             "expect_content": ["Q 1 - x72", "X 2 " + spec.hexs("-".join([one] * k))]}))
+        cs.append(Case(dtd + "<r v='" + " ".join(["&a;"] * k) + "'/>", "nc", True,
+                       meta={"gen": "budget-per-reference-attr", "n": n, "k": k,
+                             "expect_content": ["Q 1 - x72", "A 1 0 - x76 " + spec.hexs(" ".join([one] * k))]}))
+        cs.append(Case(dtd + "<r v='&a;'>&a;<c w='&a;'/>&a;</r>", "nc", True,
+                       meta={"gen": "budget-per-reference-mixed", "n": n,
+                             "expect_content": ["Q 1 - x72", "A 1 0 - x76 " + spec.hexs(one), "X 2 " + spec.hexs(one),
+                                                "Q 3 - x63", "A 3 0 - x77 " + spec.hexs(one), "X 4 " + spec.hexs(one)]}))
     return cs
 
 
@@ -250,6 +267,19 @@ def illformed_catalogue():
         ("<r xmlns='http://www.w3.org/XML/1998/namespace'/>", "xml URI as default namespace"),
         ("<r xmlns:p='http://www.w3.org/2000/xmlns/'/>", "xmlns URI declared"),
         ("<r xmlns='http://www.w3.org/2000/xmlns/'/>", "xmlns URI as default namespace"),
+        # the reserved-URI and reserved-prefix rules apply to the NORMALISED value (after references)
+        ("<r xmlns:p='http://www.w3.org/2000/xmlns&#x2F;'/>", "xmlns URI declared, spelled with a character reference"),
+        ("<r xmlns='http://&#119;ww.w3.org/2000/xmlns/'/>", "xmlns URI as default namespace, spelled with a character reference"),
+        ("<!DOCTYPE r [<!ENTITY ns 'http://www.w3.org/2000/xmlns/'>]><r xmlns:p='&ns;'/>", "xmlns URI declared through an entity"),
+        ("<r xmlns:p='http://www.w3.org/XML/1998/namespac&#101;'/>", "xml URI bound to another prefix, spelled with a character reference"),
+        ("<!DOCTYPE r [<!ENTITY ns 'http://www.w3.org/XML/1998/namespace'>]><r xmlns='&ns;'/>", "xml URI as default namespace through an entity"),
+        ("<r xmlns:xml='http://www.w3.org/XML/1998/namespace&#32;'/>", "xml prefix bound to another URI (trailing referenced space)"),
+        ("<!DOCTYPE r [<!ENTITY u 'u'>]><r xmlns:p='&u;' xmlns:q='u' p:a='1' q:a='2'/>", "duplicate attribute by expanded name, URI through an entity"),
+        # first declaration of an entity binds: a later benign re-declaration does not repair an ill-forming first one
+        ("<!DOCTYPE r [<!ENTITY e 'a<b'><!ENTITY e 'ab'>]><r a='&e;'/>", "'<' in an attribute value through the binding (first) declaration"),
+        ("<!DOCTYPE r [<!ENTITY e '<b>'><!ENTITY e '<b/>'>]><r>&e;</b></r>", "start tag in the binding (first) declaration, end tag outside"),
+        ("<!DOCTYPE r [<!ENTITY e '&nope;'><!ENTITY e 'fine'>]><r>&e;</r>", "undefined entity through the binding (first) declaration"),
+        ("<!DOCTYPE r [<!ENTITY e '&e;'><!ENTITY e 'fine'>]><r>&e;</r>", "self reference in the binding (first) declaration"),
         ("<r>&undefined;</r>", "undefined entity"), ("<r a='&undefined;'/>", "undefined entity in attribute"),
         ("<r>&#;</r>", "malformed character reference"), ("<r>&#x;</r>", "malformed character reference"),
         ("<r>&#xZ;</r>", "malformed character reference"), ("<r>& </r>", "bare ampersand"),
@@ -940,7 +970,7 @@ defprop("C12", "proof", {"R", "L", "LQ"}, lambda t, s: api_docs(t, s, "ncl"), or
 defprop("C13", "other", {"R", "P", "PA"}, c13_cases_with_shift, oracle=oracles.o_ranges, relation=c13_relation,
         rule="random documents (layout variation, non-ASCII), DOCTYPE-free for the nesting clauses, entity-expanded for validity, saturation families, shift pairs",
         technique="Coq model with positions + range lemmas (partial) + correspondence + range oracle")
-defprop("C14", "other", {"R", "E", "TP"}, c14_cases, oracle=oracles.o_positions, relation=c14_relation,
+defprop("C14", "other", {"R", "E", "EV", "TP"}, c14_cases, oracle=oracles.o_positions, relation=c14_relation,
         nontrivial=lambda c, l: rxlib.result_class(l) == "err",
         rule="errors produced by meta strings, mutations, token strings, the ill-forming catalogue, entity graphs; text_pos_at for every offset 0..len+2; whitespace-insertion pairs; non-trivial = rejected",
         technique="Coq proof of the position function against its specification + correspondence")
